@@ -6,8 +6,10 @@ Nothing is written into /repo: the MIR is dumped from an rsync'ed snapshot under
 import os, subprocess, hashlib, fcntl, time, sys, shutil
 
 ROOT = os.path.dirname(os.path.dirname(os.path.abspath(__file__)))
-CACHE = os.path.join(ROOT, '.cache')
 REPO = os.environ.get('VERIF_REPO', '/repo')
+# the registered checks always look at /repo; VERIF_REPO points the same machinery at a scratch copy (used only to try
+# seeded changes without touching /repo) and then uses a cache directory of its own
+CACHE = os.path.join(ROOT, '.cache' if REPO == '/repo' else '.cache-alt-' + hashlib.sha1(REPO.encode()).hexdigest()[:8])
 
 COMMON_ASSUMPTIONS = [
     'the MIR printed by rustc nightly for the current source is the program (mir-opt-level 0, overflow checks on, as in the dev profile the tests run)',
@@ -72,7 +74,14 @@ def prepare(hooks=False, quiet=True):
         tdir = os.path.join(CACHE, 'vreplay-target-hooks' if hooks else 'vreplay-target')
         env = dict(ENV, CARGO_TARGET_DIR=tdir)
         if hooks: env['RUSTFLAGS'] = '--cfg suiron_verif'
-        p = sh(['cargo', 'build', '--offline', '--quiet'], cwd=os.path.join(ROOT, 'vreplay'), env=env)
+        vdir = os.path.join(ROOT, 'vreplay')
+        if REPO != '/repo':
+            vdir = os.path.join(CACHE, 'vreplay-src')
+            shutil.rmtree(vdir, ignore_errors=True)
+            shutil.copytree(os.path.join(ROOT, 'vreplay'), vdir, ignore=shutil.ignore_patterns('target'))
+            ct = open(os.path.join(vdir, 'Cargo.toml')).read().replace('path = "/repo"', 'path = "%s"' % REPO)
+            open(os.path.join(vdir, 'Cargo.toml'), 'w').write(ct)
+        p = sh(['cargo', 'build', '--offline', '--quiet'], cwd=vdir, env=env)
         if p.returncode != 0:
             print(p.stderr[-3000:], file=sys.stderr)
             raise SystemExit('vreplay build failed')
